@@ -401,6 +401,40 @@ theorem C12_syscall_x86_64 :
     ∀ q ∈ LA.Gen.Syscalls_x86_64.table.zipIdx, Tables.syscallName (ofString "x86_64") q.1.1 = some q.1.2 :=
   syscallName_of_cert (nameTree := LA.Gen.Syscalls_x86_64.nameTree) rfl LA.Gen.Syscalls_x86_64.cert_nums
 
+/-- A syscall name is reported only for a number the architecture's table lists, and it is the name listed there: a
+number that is a table entry with a bit added (the x32 bit 0x40000000, say) or an offset names nothing unless the
+table lists that very number, and is then reported as the number it is. (Completeness, every listed pair is found,
+is `C12_syscall_x86_64` and the certificates behind it.) -/
+theorem C12_syscall_name_only_from_table (arch : Bytes) (num : Nat) (nm : Bytes)
+    (h : Tables.syscallName arch num = some nm) :
+    ∃ t, Tables.sysTable arch = some t ∧ (num, nm) ∈ t.2.1 := by
+  unfold Tables.syscallName at h
+  cases ht : Tables.sysTable arch with
+  | none => simp [ht] at h
+  | some t =>
+    obtain ⟨a, tbl, nameTree, numTree⟩ := t
+    simp only [ht] at h
+    refine ⟨_, rfl, ?_⟩
+    cases hf : numTree.find num with
+    | none => simp [hf] at h
+    | some i =>
+      simp only [hf] at h
+      cases hg : tbl[i]? with
+      | none => simp [hg] at h
+      | some p =>
+        obtain ⟨n, nm'⟩ := p
+        simp only [hg] at h
+        split at h
+        · rename_i hn
+          simp only [Option.some.injEq] at h
+          have hn' : n = num := by simpa using hn
+          subst hn'; subst h
+          exact List.mem_of_getElem? hg
+        · cases h
+
+example : Tables.syscallName (ofString "x86_64") (59 + 1073741824) = none := by decide +kernel
+example : Tables.syscallName (ofString "x86_64") 59 = some (ofString "execve") := by decide +kernel
+
 /-! ### socket addresses: hex of struct sockaddr -/
 
 theorem hexVal_digit (n : Nat) (h : n < 16) : hexVal (upperHexDigit n) = some n := by
